@@ -25,6 +25,7 @@ type c02Cfg struct {
 	Offsets    []int64 // proof offset inside window JoinWindow+i
 	Gas        []uint64
 	MaxProofs  int64
+	Sparse     bool // skip heights at which nothing can happen (large windows)
 }
 
 type c02Out struct {
@@ -97,9 +98,27 @@ func c02Run(c *chain.Chain, cfg c02Cfg) (out c02Out) {
 		return 0, false
 	}
 	last := cfg.S + (cfg.JoinWindow+nWin+1)*cfg.W - 1 // through the window after the last proven one
+	// Only reward heights and the heights at which somebody proves matter: the storage BeginBlocker returns at once at
+	// any other height, so those blocks are skipped (which is what makes mainnet-sized windows affordable).
+	interesting := func(h int64) bool {
+		if h == cfg.S || h%cfg.C == 0 {
+			return true
+		}
+		for _, p := range provers {
+			if _, ok := due(p, h); ok {
+				return true
+			}
+		}
+		return false
+	}
+	prevH := cfg.S
 	for h := cfg.S; h <= last; h++ {
+		if cfg.Sparse && !interesting(h) {
+			continue
+		}
 		if h > cfg.S {
-			w.f.SetBlock(h, w.f.Time().Add(6*time.Second))
+			w.f.SetBlock(h, w.f.Time().Add(time.Duration(h-prevH)*6*time.Second))
+			prevH = h
 			if i, ok := due(provers[0], h); ok && i < len(cfg.Gas) {
 				w.f.SetBlockGas(cfg.Gas[i])
 			}
@@ -179,6 +198,11 @@ func genC02(rt *rapid.T) c02Cfg {
 	}
 	cfg.W = rapid.Int64Range(2, 24).Draw(rt, "proofWindow")
 	cfg.C = rapid.Int64Range(2, 24).Draw(rt, "checkWindow")
+	if rapid.IntRange(0, 3).Draw(rt, "largeWindows") == 0 { // default (50/100) and mainnet-sized windows
+		cfg.W = rapid.SampledFrom([]int64{50, 100, 600, 7200}).Draw(rt, "proofWindowLarge")
+		cfg.C = rapid.SampledFrom([]int64{7, 50, 100, 101, 1200}).Draw(rt, "checkWindowLarge")
+		cfg.Sparse = true
+	}
 	cfg.S = rapid.Int64Range(1, 3*cfg.W*cfg.C).Draw(rt, "start")
 	cfg.JoinWindow = int64(rapid.IntRange(0, 1).Draw(rt, "joinWindow"))
 	cfg.MaxProofs = rapid.Int64Range(1, 3).Draw(rt, "maxProofs")
